@@ -355,6 +355,19 @@ func c09Exec(cs c09Case, onReq func(l lreq, rq *s3x.Req, r *s3x.Resp)) (ds []dis
 }
 
 // c09GenSetup drives the store into a reachable state.
+// c09Orphans: multipart uploads whose bucket is deleted under them (pending uploads do not keep a
+// bucket from being deleted), optionally re-created afterwards.
+func c09Orphans(recreate bool) []prog.Op {
+	b := func(s string) []byte { return []byte(s) }
+	ops := []prog.Op{{K: "mkbucket", B: "bk2"}, {K: "init", B: "bk2", Key: "a"}, {K: "init", B: "bk2", Key: "d/x"},
+		{K: "part", Ref: 0, PartN: 1, Body: b("p1")}, {K: "part", Ref: 0, PartN: 2, Body: b("p2")}, {K: "part", Ref: 1, PartN: 3, Body: b("q3")},
+		{K: "rmbucket", B: "bk2"}}
+	if recreate {
+		ops = append(ops, prog.Op{K: "mkbucket", B: "bk2"})
+	}
+	return ops
+}
+
 func c09GenSetup(rt *rapid.T, k backends.Kind, opts backends.Options) []prog.Op {
 	var ops []prog.Op
 	b := func(s string) []byte { return []byte(s) }
@@ -364,7 +377,14 @@ func c09GenSetup(rt *rapid.T, k backends.Kind, opts backends.Options) []prog.Op 
 			ops = append(ops, prog.Op{K: "mkbucket", B: "bk1"})
 		}
 	}
-	scen := rapid.SampledFrom([]string{"empty", "objects", "versioned", "uploads", "many", "mixed"}).Draw(rt, "scenario")
+	scen := rapid.SampledFrom([]string{"empty", "objects", "versioned", "uploads", "many", "mixed", "orphans"}).Draw(rt, "scenario")
+	if scen == "orphans" {
+		if k.IsSingle() || opts.AutoBucket {
+			scen = "uploads"
+		} else {
+			ops = append(ops, c09Orphans(rapid.Bool().Draw(rt, "recreate"))...)
+		}
+	}
 	versioned := k == backends.Mem && !opts.NoVersioning
 	if scen == "objects" || scen == "mixed" || scen == "many" {
 		ops = append(ops, prog.Op{K: "put", B: "bk0", Key: "a", Body: b("0123456789"), Meta: [][2]string{{"X-Amz-Meta-S", "s"}}},
@@ -531,6 +551,43 @@ func c09Prop(c *evid.Collector, cfgs []struct {
 
 func c09Run(t *testing.T, c *evid.Collector) {
 	cfgs := c09Configs(kindsFromEnv(backends.All))
+	// fixed: every multipart request kind addressed to an upload whose bucket is gone (ignores the seed)
+	if evid.Shard() == 0 {
+		q := func(kv ...string) [][2]string { return s3x.Q(kv...) }
+		complete := func(parts ...string) []byte {
+			x := "<CompleteMultipartUpload>"
+			for i := 0; i+1 < len(parts); i += 2 {
+				x += "<Part><PartNumber>" + parts[i] + "</PartNumber><ETag>" + xmlEsc(prog.ETag([]byte(parts[i+1]))) + "</ETag></Part>"
+			}
+			return []byte(x + "</CompleteMultipartUpload>")
+		}
+		reqs := []lreq{
+			{Family: "orphan:listParts", Method: "GET", Bucket: "bk2", Key: "a", Query: q("uploadId", "1")},
+			{Family: "orphan:uploadPart", Method: "PUT", Bucket: "bk2", Key: "a", Query: q("partNumber", "5", "uploadId", "1"), Body: []byte("late")},
+			{Family: "orphan:listUploads", Method: "GET", Bucket: "bk2", Query: q("uploads", s3x.Bare)},
+			{Family: "orphan:complete", Method: "POST", Bucket: "bk2", Key: "a", Query: q("uploadId", "1"), Body: complete("1", "p1", "2", "p2")},
+			{Family: "orphan:complete-subset", Method: "POST", Bucket: "bk2", Key: "d/x", Query: q("uploadId", "2"), Body: complete("3", "q3")},
+			{Family: "orphan:complete-invalid", Method: "POST", Bucket: "bk2", Key: "a", Query: q("uploadId", "1"), Body: complete("1", "wrong")},
+			{Family: "orphan:abort", Method: "DELETE", Bucket: "bk2", Key: "a", Query: q("uploadId", "1")},
+			{Family: "orphan:initiate", Method: "POST", Bucket: "bk2", Key: "new", Query: q("uploads", s3x.Bare)},
+			{Family: "orphan:put", Method: "PUT", Bucket: "bk2", Key: "a", Body: []byte("x")},
+		}
+		for _, cfg := range cfgs {
+			if cfg.K.IsSingle() || cfg.O.AutoBucket {
+				continue
+			}
+			for _, recreate := range []bool{false, true} {
+				for i := range reqs {
+					// each request first, then all of them in order
+					cs := c09Case{Backend: cfg.K, Opts: cfg.O, Setup: append([]prog.Op{{K: "mkbucket", B: "bk0"}}, c09Orphans(recreate)...), Requests: append([]lreq{reqs[i]}, reqs...)}
+					ds := c09Exec(cs, func(l lreq, rq *s3x.Req, r *s3x.Resp) {
+						c.Case(evid.FP("orphan", string(cfg.K), mustJSON(cfg.O), fmt.Sprint(recreate, i), mustJSON(l)), true, func() interface{} { return l }, "family:"+l.Family, "backend:"+string(cfg.K), "src:fixed-orphans")
+					})
+					report(c, "request", ds, cs)
+				}
+			}
+		}
+	}
 	rapidRun(t, "grammar", evid.Scale(1100, 25000), c09Prop(c, cfgs, 25))
 }
 
